@@ -128,6 +128,88 @@ def starargs(func):
     return changed
 
 
+# ---------------------------------------------------------------------------------------------- yield from
+_YF = [0]
+
+
+def _yield_from(stmts, func):
+    """`yield from E` as a statement is modelled as `for _yf in E: yield _yf` - the shape the pinned tree uses (it is
+    2/3-compatible code).  The two differ only in how send() / throw() / close() of the outer generator are forwarded
+    to E; the analyses work on the loop form (stated in DESIGN section 7)."""
+    out = []
+    changed = False
+    for s in stmts:
+        if isinstance(s, ast.Expr) and isinstance(s.value, ast.YieldFrom):
+            _YF[0] += 1
+            nm = '_yf%d' % _YF[0]
+            loop = ast.For(target=ast.Name(id=nm, ctx=ast.Store()), iter=s.value.value,
+                           body=[ast.Expr(value=ast.Yield(value=ast.Name(id=nm, ctx=ast.Load())))], orelse=[])
+            ast.copy_location(loop, s)
+            for x in ast.walk(loop):
+                if not hasattr(x, 'lineno'):
+                    ast.copy_location(x, s)
+            ast.fix_missing_locations(loop)
+            out.append(loop)
+            changed = True
+            continue
+        out.append(s)
+    return out if changed else None
+
+
+# ---------------------------------------------------------------------------------------------- walrus
+def _dewalrus(stmts, func):
+    """if (x := E): ...  ->  x = E; if x: ...   (also `if not (x := E)`, `if (x := E) is None`, and the same at the top
+    of an assignment / return / expression statement) - the assignment expression is the first thing evaluated."""
+    out = []
+    changed = False
+    for s in stmts:
+        slot = None
+        if isinstance(s, ast.If):
+            slot = ('test', s.test)
+        elif isinstance(s, (ast.Assign, ast.Return, ast.Expr)) and s.value is not None:
+            slot = ('value', s.value)
+        if slot is not None:
+            e = slot[1]
+            path = []
+            cur = e
+            ne = None
+            for _ in range(4):
+                if isinstance(cur, ast.NamedExpr):
+                    ne = cur
+                    break
+                if isinstance(cur, ast.UnaryOp):
+                    cur = cur.operand
+                elif isinstance(cur, ast.Compare):
+                    cur = cur.left
+                elif isinstance(cur, ast.BoolOp):
+                    cur = cur.values[0]
+                elif isinstance(cur, (ast.Yield, ast.Await)) and cur.value is not None:
+                    cur = cur.value
+                else:
+                    break
+            if ne is not None and isinstance(ne.target, ast.Name):
+                asg = ast.copy_location(ast.Assign(targets=[ast.Name(id=ne.target.id, ctx=ast.Store())], value=ne.value), s)
+                load = ast.copy_location(ast.Name(id=ne.target.id, ctx=ast.Load()), ne)
+                setattr(s, slot[0], _ReplaceNode(ne, load).visit(e))
+                ast.fix_missing_locations(asg)
+                out.append(asg)
+                out.append(s)
+                changed = True
+                continue
+        out.append(s)
+    return out if changed else None
+
+
+class _ReplaceNode(ast.NodeTransformer):
+    def __init__(self, old, new):
+        self.old, self.new = old, new
+
+    def visit(self, n):
+        if n is self.old:
+            return self.new
+        return self.generic_visit(n)
+
+
 # ---------------------------------------------------------------------------------------------- tuple split
 def _tuple_split(stmts, func):
     out = []
@@ -1312,7 +1394,9 @@ def simple_passes(modules, log):
             if scalar_replace(fn, m.tree):
                 log.append('record of values replaced by its fields in %s' % q)
                 changed = True
-            for name, f in (('constant loop unrolled', lambda b, f_, cls=cls: ur.block(b, f_, cls)),
+            for name, f in (('yield from modelled as a loop', _yield_from),
+                            ('assignment expression hoisted', _dewalrus),
+                            ('constant loop unrolled', lambda b, f_, cls=cls: ur.block(b, f_, cls)),
                             ('dispatch table turned into an if-chain', lambda b, f_, cls=cls: dd.block(b, f_, cls)),
                             ('tuple assignment split', _tuple_split),
                             ('constant test folded', _fold_const_tests),
